@@ -253,12 +253,18 @@ class WorkerRun:
                                     raise PlannedError("callback failure")
                             m.add_callback(cb)
                     api = st["api"]
-                    if isinstance(api, str):
-                        await getattr(m, api)()
-                    else:
-                        name, nxt = api
-                        await getattr(m, {"retry": "retry", "forceRetry": "force_retry"}[name])(
-                            next_retry=None if nxt is None else us_td(nxt))
+                    try:
+                        if isinstance(api, str):
+                            await getattr(m, api)()
+                        else:
+                            name, nxt = api
+                            await getattr(m, {"retry": "retry", "forceRetry": "force_retry"}[name])(
+                                next_retry=None if nxt is None else us_td(nxt))
+                    except Exception as e:  # noqa: BLE001
+                        # an actor that guards its response with `except Exception` (the usual "on any error …" pattern): a
+                        # refusal is an error and goes on as before; the response's own control-flow signal must not be one
+                        if not st.get("guard") or type(e).__name__ != "_NoAction":
+                            raise
                     run.ev("after_eager", id=mid, k=k)      # must never be reached when the response was accepted
                     return "after-eager"
                 raise ValueError(kind)
